@@ -579,7 +579,9 @@ func (e *env) consumeHistory(it *history.Iter) (int, error) {
 			e.c.Count("history_iter_closed_early", 1)
 			it.Close()
 			e.c.Count("history_iter_early_close_returned", 1)
-			break
+			// (Err and Result belong to an iteration that has run to its end: the
+			// query's own goroutine may still be writing them)
+			return n, nil
 		}
 		if !it.Next() {
 			break
